@@ -105,8 +105,19 @@ fn expand_relspec(value: &str, ctx: &impl ElementMap) -> String {
         if let Some(idx) = value.find([ELREF_ID_PREFIX, ELREF_PREVIOUS]) {
             result.push_str(&value[..idx]);
             value = &value[idx..];
-            if let Some(mut idx) = value[1..].find(word_break) {
-                idx += 1; // account for ignoring #/^ in word break search
+            // (a '.' between digits - the decimal point of an edge offset such as
+            // "#a@t:2.5" - belongs to the word)
+            let chars: Vec<(usize, char)> = value.char_indices().collect();
+            let word_end = chars.iter().enumerate().skip(1).find_map(|(k, &(idx, c))| {
+                let decimal_point = c == '.'
+                    && value[..idx].contains(EDGESPEC_SEP)
+                    && chars.get(k + 1).is_some_and(|n| n.1.is_ascii_digit())
+                    && (chars[k - 1].1.is_ascii_digit()
+                        || chars[k - 1].1 == EDGESPEC_SEP
+                        || chars[k - 1].1 == '-');
+                (word_break(c) && !decimal_point).then_some(idx)
+            });
+            if let Some(idx) = word_end {
                 result.push_str(&expand_single_relspec(&value[..idx], ctx));
                 value = &value[idx..];
             } else {
@@ -1388,33 +1399,46 @@ impl SvgElement {
 
     fn resolve_size_delta(&mut self) {
         // assumes "width"/"height"/"r"/"rx"/"ry" are numeric if present
+        let num = |el: &Self, name: &str| el.get_attr(name).and_then(|v| strp(&v).ok());
+        // (a circle or an ellipse can be sized by width / height as well as by radius)
         let (w, h) = match self.name.as_str() {
             "circle" => {
-                let diam = self.get_attr("r").map(|r| 2. * strp(&r).unwrap_or(0.));
+                let diam = num(self, "r")
+                    .map(|r| 2. * r)
+                    .or(num(self, "width"))
+                    .or(num(self, "height"));
                 (diam, diam)
             }
             "ellipse" => (
-                self.get_attr("rx")
-                    .and_then(|rx| strp(&rx).ok())
-                    .map(|x| x * 2.),
-                self.get_attr("ry")
-                    .and_then(|ry| strp(&ry).ok())
-                    .map(|x| x * 2.),
+                num(self, "rx").map(|x| x * 2.).or(num(self, "width")),
+                num(self, "ry").map(|x| x * 2.).or(num(self, "height")),
             ),
-            _ => (
-                self.get_attr("width").and_then(|w| strp(&w).ok()),
-                self.get_attr("height").and_then(|h| strp(&h).ok()),
+            _ => (num(self, "width"), num(self, "height")),
+        };
+        // ... and the new size goes where the old one came from
+        let radius_attrs: (Option<&str>, Option<&str>) = match self.name.as_str() {
+            "circle" if self.has_attr("r") => (Some("r"), Some("r")),
+            "ellipse" => (
+                self.has_attr("rx").then_some("rx"),
+                self.has_attr("ry").then_some("ry"),
             ),
+            _ => (None, None),
         };
 
         if let Some(dw) = self.pop_attr("dw") {
             if let Ok(Some(new_w)) = strp_length(&dw).map(|dw| w.map(|x| dw.adjust(x))) {
-                self.set_attr("width", &fstr(new_w));
+                match radius_attrs.0 {
+                    Some(r) => self.set_attr(r, &fstr(new_w / 2.)),
+                    None => self.set_attr("width", &fstr(new_w)),
+                }
             }
         }
         if let Some(dh) = self.pop_attr("dh") {
             if let Ok(Some(new_h)) = strp_length(&dh).map(|dh| h.map(|x| dh.adjust(x))) {
-                self.set_attr("height", &fstr(new_h));
+                match radius_attrs.1 {
+                    Some(r) => self.set_attr(r, &fstr(new_h / 2.)),
+                    None => self.set_attr("height", &fstr(new_h)),
+                }
             }
         }
     }
